@@ -38,6 +38,9 @@ fn ty_alphabet_full() -> Vec<Type> {
         Type::Unknown(1),
         Type::Unknown(3),
         Type::Unknown(4),
+        // zero-sized: no member of the struct, but an address on it still moves the cursor
+        // (and may overlap what precedes it)
+        Type::ident("u32").array(0),
     ]
 }
 fn ty_alphabet_small() -> Vec<Type> {
@@ -303,12 +306,12 @@ pub fn random_case(rng: &mut Rng) -> Case {
             0..=5 => Type::ident(*rng.pick(&scalars)),
             6 => Type::ident(*rng.pick(&scalars)).const_pointer(),
             7 => Type::ident("void").mut_pointer().const_pointer(),
-            8 => Type::Unknown(rng.range(1, 40)),
+            8 => Type::Unknown(rng.range(0, 40)),
             _ => Type::ident(*rng.pick(&scalars)),
         };
         let t = if rng.chance(1, 4) {
             let inner = if rng.chance(1, 5) { base.array(rng.range(1, 3)) } else { base };
-            inner.array(rng.range(1, 9))
+            inner.array(rng.range(0, 9))
         } else {
             base
         };
